@@ -53,6 +53,26 @@ Theorem C05_buffered_within_held : forall sv v q m,
 Proof. exact buffered_range_within_held. Qed.
 Print Assumptions C05_buffered_within_held.
 
+(* a version the server fully holds with live changes: the changesets sent for it (for every
+   Full need covering it: C05_full_need_answers_live_version) have sequence ranges that tile
+   0..=last_seq and carry exactly its live changes, in order -- via the C08 tiling theorem *)
+Theorem C05_live_version_tiles_exact : forall rz v rows,
+  rows <> [] ->
+  wf_input (map (fun r => mkChg (fst r) rz (snd r)) rows) 0 (maxseq rows) = true ->
+  let ms := send_chunks rz v (maxseq rows) rows 0 (maxseq rows) in
+  tiles 0 (maxseq rows) (map msg_range ms) /\
+  concat (map msg_rows ms) = rows /\
+  Forall (fun m => match m with MFull v' _ _ _ l => v' = v /\ l = maxseq rows | MEmpty _ _ => False end) ms.
+Proof. exact live_version_tiles_exact. Qed.
+Print Assumptions C05_live_version_tiles_exact.
+
+Theorem C05_full_need_answers_live_version : forall sv s e v rows m,
+  vget v (sv_live sv) = Some rows -> s <= v <= e ->
+  In m (send_chunks (sv_rowsize sv) v (maxseq rows) rows 0 (maxseq rows)) ->
+  In m (handle_need_full sv s e).
+Proof. exact full_need_answers_live_version. Qed.
+Print Assumptions C05_full_need_answers_live_version.
+
 Example C05_nonvacuous :
   let sv := mkSrv [(8, [(0, 1009)]); (9, [(0, 1001); (1, 1002); (2, 1003)])] [(3, 3); (5, 5); (7, 7)]
                   [(4, [(0, 4100); (1, 4101)])] [(4, [((0, 1), 3)])] [(3, 3); (5, 5); (7, 7)] (Some 9) 75 in
